@@ -1,13 +1,13 @@
 (** Property C03 — every algorithm returns a well-formed consensus over exactly the universe.
-    Status (PARTIAL): proved for the algorithms whose last step is modelled end to end — Borda (both
+    Status: proved for the algorithms whose last step is modelled end to end — Borda (both
     variants), Copeland, KwikSort (every pivot script), PickAPerm's candidates (unified rankings), the
     Markov-style decoding of dense bucket-id vectors, the defeat-count decoder of the exact algorithm (on every
-    feasible point of its program), the ParCons concatenation (given well-formed sub-answers).  Not a theorem in
-    this version: BioConsert's dictionary decoder applied to the vectors its local search produces.  Every consensus returned by the 15
+    feasible point of its program), the ParCons concatenation (given well-formed sub-answers), BioConsert's decoder on the
+    (dense) vectors its local search produces.  Every consensus returned by the 15
     configurations is judged in Coq: at least one ranking, exactly one when one is asked, non-empty pairwise
     disjoint buckets whose union is exactly the universe with element types preserved, views consistent. *)
 From Corankco Require Import Prelude Scheme Rank KemenySpec CostTable GroupSort Borda BordaProof Copeland CopelandProof
-     KwikSort KwikSortProof Markov MarkovProof OptTheory Partition PartitionProof ConsistentProof ParConsProof ILP ILPProof.
+     KwikSort KwikSortProof Markov MarkovProof OptTheory Partition PartitionProof ConsistentProof ParConsProof ILP ILPProof BioConsert Judge.JBio BioMoves BioLoop BioAlgo.
 Local Open Scope Z_scope.
 
 Theorem C03_borda_wf : forall ub R,
@@ -57,3 +57,26 @@ Theorem C03_parcons_wf : forall K bound exact aux U P,
   Permutation (elems (fst (parcons K bound exact aux P))) U.
 Proof. intros K bound exact aux U P M Nd HP HB He Ha. exact (proj1 (parcons_spec K bound exact aux M U P Nd HP HB He Ha)). Qed.
 Print Assumptions C03_parcons_wf.
+
+(** BioConsert: the local search keeps the vectors dense and the decoder turns a dense vector into non-empty
+    disjoint buckets over exactly the universe, in the order and with the ties of the vector *)
+Theorem C03_bioconsert_decoder_wf : forall U v m, NoDup U -> (0 < length U)%nat -> DenseTo (length U) v m ->
+  Permutation (elems (decode_vec U v)) U /\ Forall (fun b => b <> []) (decode_vec U v) /\
+  forall i, (i < length U)%nat -> bucket_id (decode_vec U v) (nth i U 0%nat) = get v i.
+Proof. exact decode_vec_wf. Qed.
+Print Assumptions C03_bioconsert_decoder_wf.
+
+Theorem C03_bioconsert_wf : forall fuel one s D deps sc rs,
+  valid s ->
+  let U := universe D in let n := length U in
+  (0 < n)%nat -> deps <> [] -> Forall (fun d => exists m, DenseTo n d m) deps ->
+  bioconsert_on fuel one s D deps = Some (sc, rs) ->
+  rs <> [] /\ (one = true -> length rs = 1%nat) /\
+  forall c, In c rs -> Permutation (elems c) U /\ Forall (fun b => b <> []) c.
+Proof.
+  intros fuel one s D deps sc rs Hv U n Hn Hne HDs E.
+  destruct (bioconsert_on_spec fuel one s D deps sc rs Hv Hn Hne HDs E) as (_ & A & B & H).
+  split; [exact A|]. split; [exact B|]. intros c Hc. destruct (H c Hc) as (v & m & -> & HD & _).
+  destruct (decode_vec_wf U v m (universe_NoDup D) Hn HD) as (P & Q & _). split; assumption.
+Qed.
+Print Assumptions C03_bioconsert_wf.
